@@ -9,13 +9,15 @@
    [wf_view] (Spec/TDigestSpec.v) = EVERY valid image: >= 1 centroid, means non-decreasing,
    weights > 0, min <= first mean, last mean <= max, total = sum of weights -- including heavy
    first / last centroids that the in-process algorithm never produces.
-   [unit_ends_tight] = a first (last) centroid of weight 1 has mean = min (max); needed exactly
-   where stated (see c10_rank_mono_without_tight_ends_refuted).  [strictP] = pairwise distinct means.
-   Equality of rationals is [==] (Qeq). *)
+   [unit_ends_tight] = a first (last) centroid of weight 1 has mean = min (max): true of every
+   in-process digest, NOT needed by any theorem below since the repair 30e007d of the rank tails
+   (the former known finding tdigest-D17; see c10_example_unit_ends).  [strictP] = pairwise
+   distinct means.  Equality of rationals is [==] (Qeq). *)
 From Coq Require Import QArith Qabs.
 From DS Require Import Base.Prelude Model.TDigest Spec.TDigestSpec.
 From DS Require Import Proofs.TDigestProofsBase Proofs.TDigestProofsRank Proofs.TDigestProofsQuantile
-  Proofs.TDigestProofsConsist Proofs.TDigestProofsBlocks Proofs.TDigestProofsCdf Proofs.TDigestProofsMerge Proofs.TDigestProofsInproc.
+  Proofs.TDigestProofsConsist Proofs.TDigestProofsBlocks Proofs.TDigestProofsCdf Proofs.TDigestProofsMerge Proofs.TDigestProofsInproc
+  Proofs.TDigestProofsReach.
 Open Scope Q_scope.
 
 (* ---------------- rank ---------------- *)
@@ -33,16 +35,25 @@ Proof. exact rank_below_min. Qed.
 Theorem c10_rank_above_max : forall v, wf_view v -> forall x, v_max v < x -> rank v x = Ok (Some 1).
 Proof. exact rank_above_max. Qed.
 
-Theorem c10_rank_mono : forall v, wf_view v -> unit_ends_tight v ->
+(* EVERY well-formed view: heavy ends, unit-weight end centroids away from min / max (decoded images,
+   and what update makes of them) included *)
+Theorem c10_rank_mono : forall v, wf_view v ->
   forall x y r r', x <= y -> rank v x = Ok (Some r) -> rank v y = Ok (Some r') -> r <= r'.
 Proof. exact rank_mono. Qed.
 
-(* Full statement would be c10_rank_mono without [unit_ends_tight]; the faithful model refutes it
-   (known finding tdigest-D17: image min 0, max 40, centroids (10,w1) (20,w1) (30,w10):
-   rank 0.5 = 0.08125 > rank 5 = 0.0625).  No data set has such a summary. *)
-Theorem c10_rank_mono_without_tight_ends_refuted :
-  exists v x y r r', wf_view v /\ x <= y /\ rank v x = Ok (Some r) /\ rank v y = Ok (Some r') /\ r' < r.
-Proof. exact rank_mono_without_tight_ends_refuted. Qed.
+(* non-vacuity of c10_rank_mono where it used to fail (known finding tdigest-D17, fixed by 30e007d):
+   d17_view = image min 0, max 40, centroids (10,w1) (20,w1) (30,w10): a weight-1 first centroid
+   whose mean is not min; the unrepaired code answered rank 0.5 = 0.08125 > rank 5 = 0.0625.
+   after_update_view = the valid heavy-end image of c10_example after update(5) and a compression:
+   (5,w1) (10,w10) (20,w1) (30,w10), min still 0.  Ranks are now flat at half the unit weight. *)
+Example c10_example_unit_ends :
+  wf_view d17_view /\ ~ unit_ends_tight d17_view /\
+  (exists r0 r1 r2 r3, rank d17_view 0 = Ok (Some r0) /\ rank d17_view (1 # 2) = Ok (Some r1) /\ rank d17_view 5 = Ok (Some r2) /\
+     rank d17_view 10 = Ok (Some r3) /\ r0 == 1 # 48 /\ r1 == 1 # 24 /\ r2 == 1 # 24 /\ r3 == 1 # 24) /\
+  wf_view after_update_view /\ ~ unit_ends_tight after_update_view /\
+  (exists r1 r2 r3, rank after_update_view (1 # 2) = Ok (Some r1) /\ rank after_update_view 4 = Ok (Some r2) /\
+     rank after_update_view 5 = Ok (Some r3) /\ r1 == 1 # 44 /\ r2 == 1 # 44 /\ r3 == 1 # 44).
+Proof. exact unit_end_examples. Qed.
 
 (* ---------------- quantile ---------------- *)
 Theorem c10_quantile_total : forall v, wf_view v -> forall q, exists x, quantile v q = Ok (Some x).
@@ -78,11 +89,11 @@ Theorem c10_pmf_sums_to_one : forall v, wf_view v -> forall sp, strictly_increas
   exists l, pmf v sp = Ok (Some l) /\ length l = S (length sp) /\ qsum l == 1.
 Proof. exact pmf_sums_to_one. Qed.
 
-Theorem c10_cdf_nondecreasing : forall v, wf_view v -> unit_ends_tight v ->
+Theorem c10_cdf_nondecreasing : forall v, wf_view v ->
   forall sp c, strictly_increasing sp = true -> cdf v sp = Ok (Some c) -> nondecr c.
 Proof. exact cdf_nondecr. Qed.
 
-Theorem c10_pmf_nonnegative : forall v, wf_view v -> unit_ends_tight v ->
+Theorem c10_pmf_nonnegative : forall v, wf_view v ->
   forall sp l, strictly_increasing sp = true -> pmf v sp = Ok (Some l) -> Forall (fun d => 0 <= d) l.
 Proof. exact pmf_nonneg. Qed.
 
@@ -125,22 +136,65 @@ Proof.
   split; [reflexivity|]. split; [vm_compute; reflexivity|]. vm_compute. reflexivity.
 Qed.
 
-(* ---------------- total_weight, min, max of in-process digests ---------------- *)
-(* [reach h d] (Spec/TDigestSpec.v): d is a state of TDigestMut after history h (update / any
-   compressing operation / merge), every merge pass being ANY output allowed by the exact merge
-   relation (C15: the crate's passes are checked against it at run time).  [values h] = the finite
-   values offered, merges included. *)
-Theorem c10_td_total : forall h d, reach h d -> td_total d = Z.of_nat (length (values h)).
+(* ---------------- total_weight, min, max; which states the theorems above cover ---------------- *)
+(* [reach h d] (Spec/TDigestSpec.v): d is a state of TDigestMut after history h.  A history starts
+   from new(k) or from a DECODED IMAGE d0 satisfying [image_ok] (k >= 10, weights consistent, means
+   sorted, everything inside [min, max]; heavy or loose end centroids and buffered values allowed --
+   Props/C17_tdigest.v derives image_ok for the digests the modelled reader returns), and continues
+   with update / any compressing operation / merge.  Every merge pass may produce ANY output allowed
+   by the EXACT merge relation [merge_rel 0] (C15).  The crate's passes are checked at run time with
+   the boolean [valid_merge] at tolerance 1e-9 (binary64 means), so the correspondence leg links the
+   crate to [reach] only up to that tolerance; this is stated in the level note.
+   [values h] = the finite values offered (merges included); [image_weight h] = the weight of the
+   images the history started from; [inprocess h] = no image. *)
+Theorem c10_td_total : forall h d, reach h d -> inprocess h -> td_total d = Z.of_nat (length (values h)).
 Proof. exact td_total_exact. Qed.
 
-Theorem c10_td_minmax : forall h d, reach h d -> is_min (td_min d) (values h) /\ is_max (td_max d) (values h).
+Theorem c10_td_total_any_start : forall h d, reach h d ->
+  td_total d = (image_weight h + Z.of_nat (length (values h)))%Z.
+Proof. exact reach_total. Qed.
+
+Theorem c10_td_minmax : forall h d, reach h d -> inprocess h -> is_min (td_min d) (values h) /\ is_max (td_max d) (values h).
 Proof. exact td_minmax_exact. Qed.
 
-(* every compressed in-process digest is a well-formed view with tight ends: all of the above applies *)
-Theorem c10_inprocess_views_are_wellformed : forall h d, reach h d -> td_buf d = [] -> td_cs d <> [] ->
+(* every compressed non-empty state of every history -- started in process or from a decoded image --
+   is a well-formed view: all rank / quantile / cdf / pmf theorems above apply to it *)
+Theorem c10_reachable_views_are_wellformed : forall h d, reach h d -> td_buf d = [] -> td_cs d <> [] ->
+  wf_view (td_view d).
+Proof. exact reach_view_wf. Qed.
+
+(* in process the ends are moreover tight: first / last mean ARE min / max *)
+Theorem c10_inprocess_views_are_wellformed : forall h d, reach h d -> inprocess h -> td_buf d = [] -> td_cs d <> [] ->
   wf_view (td_view d) /\ unit_ends_tight (td_view d) /\
   v_min (td_view d) == c_mean (firstc (td_cs d)) /\ c_mean (lastc (td_cs d)) == v_max (td_view d).
 Proof. exact inproc_view_wf. Qed.
+
+(* progress: [reach] is not vacuous -- every history whose constructor calls meet their preconditions
+   (new: k >= 10; image: image_ok) has a reachable state (a legal merge pass always exists) *)
+Theorem c10_reach_progress : forall h, hist_ok h -> exists d, reach h d.
+Proof. exact reach_progress. Qed.
+
+(* non-vacuity of the image start: the heavy-end image of c10_example (k = 100) is image_ok; update(5)
+   and a compression that keeps the new value as its own centroid reach exactly after_update_view
+   (a weight-1 first centroid whose mean 5 is not min 0: the shape of c10_example_unit_ends) *)
+Example c10_example_image_then_update :
+  let d0 := mkTd 100 false (Some 0) (Some 40) [(10, 10%positive); (20, 1%positive); (30, 10%positive)] 21 [] in
+  image_ok d0 /\ exists d, reach (HCompress (HUpd (HImage d0) 5)) d /\ td_view d = after_update_view.
+Proof.
+  cbv zeta.
+  assert (I0 : image_ok (mkTd 100 false (Some 0) (Some 40) [(10, 10%positive); (20, 1%positive); (30, 10%positive)] 21 [])).
+  { constructor; cbn [td_k td_cw td_cs td_buf td_min td_max]; try reflexivity; try discriminate.
+    - repeat split; apply Qle_bool_iff; reflexivity.
+    - intros c [<-|[<-|[<-|[]]]]; split; apply Qle_bool_iff; reflexivity.
+    - intros x []. }
+  split; [exact I0|].
+  pose proof (R_upd_room _ _ 5 (R_image _ I0) eq_refl) as R1.
+  eexists. split.
+  - eapply (R_compress _ _ [(5, 1%positive); (10, 10%positive); (20, 1%positive); (30, 10%positive)] R1).
+    + cbn. discriminate.
+    + apply valid_merge_sound. vm_compute. reflexivity.
+  - vm_compute. reflexivity.
+Qed.
 
 (* ---------------- non-vacuity ---------------- *)
 (* an image with heavy first and last centroids (never produced in process): well-formed, tight,
